@@ -737,6 +737,14 @@ func (e *Env) call(n *ECall) (tv, error) {
 		id := e.sc.sorts.ifaceID(gt)
 		e.g.box(gt, e.sc.sorts.zero(gt))
 		return tv{t: fmt.Sprintf("(unbox_%d %s)", id, as.t), ty: goT(gt)}, nil
+	case "calls":
+		ts, ok := n.Args[0].(*EStr)
+		if !ok {
+			return tv{}, fmt.Errorf("calls needs a function name string")
+		}
+		tag := "N!" + ts.Val
+		e.sc.regTag(tag, "Int")
+		return tv{t: e.memTag(tag), ty: stInt}, nil
 	case "f2u":
 		as, err := args()
 		if err != nil {
